@@ -3,6 +3,7 @@
 Real code run symbolically: Simulation (reference), FastSimulation.__init__/_initialize/_compiled/step and the GENERATED
 sim_func (through the compile hook), CompiledSimulation.__init__/_create_code/_build_* (real, gcc build included), the
 generated C (vf/ctrans.py) and the real run() over list-backed buffers. Same solver variables for all three."""
+import json
 import z3
 import pyrtl
 from .. import designs, simdrv, sym, concrete
@@ -147,6 +148,12 @@ def run_case(case, ob, tier):
             assume = [z3.Not(d) for d in sp.double_write]
             cm = CompiledModel(block, regvals=regs, memvals=mems)
             rb = run_compiled(cm, K, v, assumptions=assume)
+            nval, bad = simdrv.validate_compiled_model(cm, K, v, rb, salt=len(json.dumps(case, sort_keys=True)))
+            if bad:
+                raise sym.HarnessError('vf/ctrans.py disagrees with the real compiled library: %s' % bad[:3])
+            ob.translator_checked = getattr(ob, 'translator_checked', 0) + nval
+            if nval:
+                ob.notes.append('ctrans model == real gcc-built library on one concrete input sequence per compiled case')
             meminit = {mem.name: SymMem.from_dict(mems.get(mem.name, {}), 0, mem.addrwidth, mem.bitwidth)
                        for mem in simdrv.mems_of(block).values()}
             with sym_env([block]):
